@@ -289,14 +289,14 @@ Qed.
 Definition text_coherent (q : request) : Prop := forall f f' idx idx',
   In (f, idx) rules -> In (f', idx') rules -> nr_text f' = nr_text f -> rmatch psl f' q = rmatch psl f q.
 
-Theorem match_all_complete q f idx :
-  retr_complete -> pdomains_ok f -> text_coherent q ->
+(* pointwise: it is enough that THIS rule can be retrieved (it is in the cache, say) *)
+Theorem match_all_complete_at q f idx :
+  retr idx = Some f -> pdomains_ok f -> text_coherent q ->
   In (f, idx) rules -> rmatch psl f q = true ->
   exists f', In f' (match_all hash psl retr e q) /\ nr_text f' = nr_text f /\
              (rule_shortcuts f <> [] \/ (nr_pdomains f <> [] /\ no_wild f = true) -> f' = f).
 Proof.
-  intros RC Hok Hco Hin M. assert (Hf := build_filed hash rules f idx Hin). fold e in Hf. unfold filed in Hf.
-  assert (R : retr idx = Some f) by now apply RC.
+  intros R Hok Hco Hin M. assert (Hf := build_filed hash rules f idx Hin). fold e in Hf. unfold filed in Hf.
   destruct (rule_shortcuts f) as [|w0 ws0] eqn:Ers.
   - destruct (negb (isnil (nr_pdomains f)) && no_wild f) eqn:Ed.
     + apply andb_true_iff in Ed as [Ed1 Ed2].
@@ -322,6 +322,13 @@ Proof.
         destruct (_ <? _)%nat; [destruct Hw|]. destruct (is_any_url_shortcut _); [destruct Hw|]. exact Hw.
 Qed.
 
+Theorem match_all_complete q f idx :
+  retr_complete -> pdomains_ok f -> text_coherent q ->
+  In (f, idx) rules -> rmatch psl f q = true ->
+  exists f', In f' (match_all hash psl retr e q) /\ nr_text f' = nr_text f /\
+             (rule_shortcuts f <> [] \/ (nr_pdomains f <> [] /\ no_wild f = true) -> f' = f).
+Proof. intros RC Hok Hco Hin M. apply (match_all_complete_at q f idx); auto. Qed.
+
 (* the property as stated: the set of texts reported equals the set of texts of the individually
    matching rules *)
 Theorem match_all_texts q t :
@@ -336,6 +343,40 @@ Proof.
     exists f'. split; [congruence | exact H1].
 Qed.
 End Main.
+
+(* ---- for ANY engine value and ANY storage behaviour: every reported rule matches; a storage that
+   hands out less (failed retrievals) reports a subset ---- *)
+Theorem match_all_true hash psl retr e q f : In f (match_all hash psl retr e q) -> rmatch psl f q = true.
+Proof.
+  intro H. unfold match_all in H. apply in_app_or in H as [H|H]; [|apply in_app_or in H as [H|H]].
+  - apply in_map_iff in H as ([idx g] & <- & H). unfold match_shortcuts in H.
+    change (In (idx, g) (fold_left (w_step hash psl retr q (ne_shortcuts e)) (windows (rq_url_lower q)) [])) in H.
+    apply w_fold_sound in H as [[]|(_ & _ & M)]. exact M.
+  - unfold match_domains in H. destruct (isnil (rq_source_hostname q)); [destruct H|].
+    apply in_flat_map in H as (d & _ & H). apply in_flat_map in H as (idx & _ & H).
+    destruct (retr idx) as [g|]; [|destruct H]. destruct (rmatch psl g q) eqn:M; [|destruct H].
+    destruct H as [<-|[]]. exact M.
+  - now apply filter_In in H.
+Qed.
+
+Theorem match_all_mono hash psl r1 r2 e q :
+  (forall idx f, r1 idx = Some f -> r2 idx = Some f) ->
+  incl (match_all hash psl r1 e q) (match_all hash psl r2 e q).
+Proof.
+  intros Hr f H. unfold match_all in *. apply in_app_or in H as [H|H]; [|apply in_app_or in H as [H|H]].
+  - apply in_or_app. left. apply in_map_iff in H as ([idx g] & <- & H). apply in_map_iff. exists (idx, g). split; [reflexivity|].
+    unfold match_shortcuts in *.
+    change (In (idx, g) (fold_left (w_step hash psl r1 q (ne_shortcuts e)) (windows (rq_url_lower q)) [])) in H.
+    change (In (idx, g) (fold_left (w_step hash psl r2 q (ne_shortcuts e)) (windows (rq_url_lower q)) [])).
+    apply w_fold_sound in H as [[]|((w & Hw & Ht) & R & M)]. cbn [fst snd] in *.
+    apply (w_fold_complete hash psl r2 q (ne_shortcuts e) _ [] w); auto. intros x [].
+  - apply in_or_app. right. apply in_or_app. left. unfold match_domains in *.
+    destruct (isnil (rq_source_hostname q)); [destruct H|].
+    apply in_flat_map in H as (d & Hd & H). apply in_flat_map in H as (idx & Hb & H).
+    apply in_flat_map. exists d. split; [exact Hd|]. apply in_flat_map. exists idx. split; [exact Hb|].
+    destruct (r1 idx) as [g|] eqn:R; [|destruct H]. now rewrite (Hr _ _ R).
+  - apply in_or_app. right. apply in_or_app. now right.
+Qed.
 
 (* ---- rules produced by the parser satisfy the two side conditions ---- *)
 Definition parsed (rules : list (net_rule * Z)) : Prop :=
